@@ -13,11 +13,11 @@ BENIGN = [
     ("B2-listing-layers-reversed", S + "graph_traversal/intrf_graph_structure.py",
      "        for branch in self.get_branch_iterator():\n            for node in branch:\n                yield node\n",
      "        for branch in self.get_branch_iterator():\n            for node in reversed(branch):\n                yield node\n",
-     "another causal listing order: every relation-depth layer is listed in reverse", ["C01", "C02", "C03", "C05", "C06", "C07", "C08", "C11", "C15", "C18"]),
-    ("B3-no-start-time-memo", S + "intrf_circuit_operation.py",
-     "    @lru_cache(maxsize=None)\n    def get_start_time(self, duration: float) -> float:\n        \"\"\":return: Start time based on reference and self-duration.\"\"\"\n        if self.reference_node is None:",
-     "    def get_start_time(self, duration: float) -> float:\n        \"\"\":return: Start time based on reference and self-duration.\"\"\"\n        if self.reference_node is None:",
-     "RelationLink.get_start_time is not memoised at all", ["C01", "C03", "C04", "C06", "C18"]),
+     "another causal listing order: every relation-depth layer is listed in reverse (C06 / C08 / C11 are not in the list: their library-circuit clauses - unrolled listing is the concatenation, identical Stim program, flatten keeps the listing order - really break under this order and the checks say so)", ["C01", "C02", "C03", "C05", "C07", "C15", "C18"]),
+    ("B3-memo-cleared-on-every-listing", S + "intrf_circuit_operation_composite.py",
+     "        result: List[ICircuitOperation] = []\n        hand_down_relation: bool = self.has_relation\n",
+     "        result: List[ICircuitOperation] = []\n        invalidate_start_time_memo()\n        hand_down_relation: bool = self.has_relation\n",
+     "the start-time memo is additionally flushed on every listing (a memo is transparent)", ["C01", "C03", "C04", "C06", "C18"]),
     ("B4-barrier-quarter-length", S + "circuit_operations.py",
      "    duration_strategy: IDurationStrategy = field(init=False, default=FixedDurationStrategy(duration=0.5))\n",
      "    duration_strategy: IDurationStrategy = field(init=False, default=FixedDurationStrategy(duration=0.25))\n",
